@@ -1012,7 +1012,9 @@ def observe(w, callers, window, deadline, extra_threads=()):
         # delivered during the whole run, so whoever should read them is one of the parked threads)
         if span >= window and run_samples >= 8:
             # parked = asleep for the OS, no CPU used, and the innermost frame on a blocking primitive
-            asleep = all(o["asleep"] >= 0.9 * o["n"] and o["atprim"] >= 0.9 * o["n"]
+            # (a 0.1 s poll loop is caught runnable in up to ~20 % of the samples; a starved thread that is
+            # doing real work is runnable almost always, is not on a blocking primitive, and accumulates CPU)
+            asleep = all(o["asleep"] >= 0.6 * o["n"] and o["atprim"] >= 0.9 * o["n"]
                          and o["cpu"] - o["cpu0"] <= max(0.1, 0.05 * span)
                          for o in osinfo.values()) and len(osinfo) == len(live)
             top = max(n for n, _ in states.values())
